@@ -832,6 +832,8 @@ fn fail_all_pending(inner: &std::sync::Weak<ClientInner>, err: RepeError) {
         };
         map.drain().collect::<Vec<_>>()
     };
+    #[cfg(feature = "verif-hooks")]
+    crate::verif::probe("cm_fail_drained");
 
     for (request_id, sender) in waiters {
         let _ = sender.send(Err(clone_fatal_error_for_waiter(&err, request_id)));
